@@ -249,12 +249,47 @@ func Drive(c Check, tier string, verifDir string, deadline time.Duration) int {
 	return finishRun(c, tier, verifDir, &total, outcomes, capsSet, planned, time.Since(start))
 }
 
+// runWorker runs one unit in a worker process. A unit that exceeds its wall-clock limit, or whose worker
+// dies (fatal error, stack overflow, out of memory), is run a second time with twice the limit; if that
+// fails the same way the code under test hangs or crashes on this unit, which is reported as a violation
+// (signature <check>|hang|... or <check>|worker-crash|...) with the unit as the replayable case.
 func runWorker(self string, u Unit) Result {
-	in, _ := json.Marshal(u)
 	limit := 4 * time.Minute
 	if u.Tier == "thorough" {
 		limit = 20 * time.Minute
 	}
+	r, hung, crashed := runWorkerOnce(self, u, limit)
+	if !hung && !crashed {
+		return r
+	}
+	first := r.Err
+	r2, hung2, crashed2 := runWorkerOnce(self, u, 2*limit)
+	if !hung2 && !crashed2 {
+		return r2 // load or a transient failure of the worker: the second run decides
+	}
+	uu := u
+	kind := "hang"
+	if crashed2 {
+		kind = "worker-crash"
+	}
+	var out Result
+	out.Violations = append(out.Violations, Violation{
+		Property: u.Check, Harness: "worker", Signature: fmt.Sprintf("%s|%s|unit=%s", u.Check, kind, u.Kind),
+		What: fmt.Sprintf("the unit did not complete twice (limits %s and %s): %s ;; second run: %s", limit, 2*limit, firstLineOf(first), firstLineOf(r2.Err)),
+		Case: map[string]any{"unit_kind": u.Kind, "unit_spec": json.RawMessage(u.Spec)}, Reproduced: 2, Unit: &uu,
+	})
+	return out
+}
+
+func firstLineOf(s string) string {
+	if len(s) > 1500 {
+		s = s[:1500]
+	}
+	return strings.ReplaceAll(s, "\n", " | ")
+}
+
+func runWorkerOnce(self string, u Unit, limit time.Duration) (r Result, hung, crashed bool) {
+	in, _ := json.Marshal(u)
 	ctx, cancel := context.WithTimeout(context.Background(), limit)
 	defer cancel()
 	cmd := exec.CommandContext(ctx, self, "worker")
@@ -264,29 +299,23 @@ func runWorker(self string, u Unit) Result {
 	cmd.Stderr = &errb
 	cmd.Env = append(os.Environ(), "GOMAXPROCS=2", "GOGC=200")
 	err := cmd.Run()
-	var r Result
-	// the result is the last line of stdout starting with the marker
-	idx := bytes.LastIndex(out.Bytes(), []byte("\n@@RESULT "))
-	if idx < 0 && bytes.HasPrefix(out.Bytes(), []byte("@@RESULT ")) {
-		idx = -1
-	}
 	var payload []byte
 	if i := bytes.LastIndex(out.Bytes(), []byte("@@RESULT ")); i >= 0 {
 		payload = out.Bytes()[i+len("@@RESULT "):]
 	}
-	_ = idx
 	if ctx.Err() != nil {
 		r.Err = fmt.Sprintf("worker for unit %s/%s %s exceeded %s of wall clock and was killed (a hang in the code under test or a unit sized too large)", u.Check, u.Kind, string(u.Spec), limit)
-		return r
+		return r, true, false
 	}
 	if payload == nil || json.Unmarshal(bytes.TrimSpace(payload), &r) != nil {
 		tail := errb.String()
 		if len(tail) > 3000 {
 			tail = tail[len(tail)-3000:]
 		}
-		r.Err = fmt.Sprintf("worker for unit %s/%s failed: %v\nstderr: %s", u.Check, u.Kind, err, tail)
+		r = Result{Err: fmt.Sprintf("worker for unit %s/%s failed: %v\nstderr: %s", u.Check, u.Kind, err, tail)}
+		return r, false, true
 	}
-	return r
+	return r, false, false
 }
 
 // WorkerMain is the entry point of a worker process.
